@@ -73,6 +73,33 @@ fn enumerate_notes(tier: Tier, c10: bool, emit: &mut dyn FnMut(&str)) {
             emit(&format!("owner={}|text={}", owner, text.replace('\n', "\\n")));
         }
     }
+    if !c10 {
+        // a section with three own blocks, one of them of each kind in turn, before its sub-sections
+        // (the reference left by extract / the text put in by inline go behind the own blocks)
+        let kinds: &[(&str, &str)] = &[
+            ("rule", "---\n"),
+            ("code", "```\ncode\n```\n"),
+            ("table", "| a |\n|---|\n| b |\n"),
+            ("quote", "> quoted\n"),
+            ("list", "- item\n"),
+            ("olist", "1. item\n"),
+            ("ref", "[two](@2)\n"),
+        ];
+        for owner in owners() {
+            let two = if owner == "1" { "2" } else { "../2" };
+            for (_, k) in kinds {
+                let k = k.replace("@2", two);
+                for pos in 0..3 {
+                    let mut own: Vec<String> = vec!["first own\n".into(), "second own\n".into()];
+                    own.insert(pos, k.clone());
+                    for subs in ["## sub\n\nbody\n", "## sub\n\nbody\n\n## next\n\nmore\n", "## sub\n\n[two](@2)\n"] {
+                        let text = format!("# top\n\n{}\n{}", own.join("\n"), subs.replace("@2", two));
+                        emit(&format!("owner={}|text={}", owner, text.replace('\n', "\\n")));
+                    }
+                }
+            }
+        }
+    }
     if c10 {
         // runs of adjacent blocks of one kind and wide containers (source markers as written: the
         // action formats the note first)
